@@ -183,3 +183,46 @@ func verifAcceptedKeyIsWhatWasWritten(s string, k Key) {
 		vf.Assert("accepted-key-is-the-key-written", verifLetter(k.Name) == l && verifAccNum(k.Accidental) == a && k.Minor == m)
 	}
 }
+
+// verifScaleIs: the seven notes of s are the scale of (letter, acc, minor), in order.
+func verifScaleIs(s *Scale, letter, acc int, minor bool) bool {
+	if s == nil {
+		return false
+	}
+	sig := spec.Signature(letter, acc, minor)
+	ok := true
+	for i := 0; i < 7; i++ {
+		n := s.Notes[i]
+		ok = ok && n != nil && verifLetter(n.Name) == (letter+i)%7 && verifAccNum(n.Accidental) == spec.AccidentalInKey((letter+i)%7, sig)
+	}
+	return ok
+}
+
+// VerifC13TwoScales: a scale stays what it is when another one is built afterwards (the
+// listing commands hold all 28 at once); and every entry of the listing has its own notes.
+func VerifC13TwoScales() {
+	k1, l1, a1, m1 := verifKey("first.")
+	vf.Assume(spec.IsListedKey(l1, a1, m1))
+	k2, l2, a2, m2 := verifKey("second.")
+	vf.Assume(spec.IsListedKey(l2, a2, m2))
+	s1, e1 := NewScale(k1)
+	vf.Assert("listed-key-supported", e1 == nil && verifScaleIs(s1, l1, a1, m1))
+	s2, e2 := NewScale(k2)
+	vf.Assert("listed-key-supported", e2 == nil && verifScaleIs(s2, l2, a2, m2))
+	vf.Assert("earlier-scale-unchanged-by-a-later-one", verifScaleIs(s1, l1, a1, m1) && s1.Key == k1)
+	vf.Reach("end")
+}
+
+// VerifC13Listing: every scale of the key listing (`info key list`) carries the notes and the
+// signature of its own key, all 28 held at the same time.
+func VerifC13Listing() {
+	all := AllScales()
+	vf.Assert("listing-has-28-keys", len(all) == 28)
+	for _, s := range all {
+		l, a, m := verifLetter(s.Key.Name), verifAccNum(s.Key.Accidental), s.Key.Minor
+		sig := spec.Signature(l, a, m)
+		vf.Assert("listed-scale-has-its-own-notes", spec.IsListedKey(l, a, m) && verifScaleIs(s, l, a, m))
+		vf.Assert("listed-scale-has-its-own-signature", s.Sharp == vf.Ite(sig > 0, sig, 0) && s.Flat == vf.Ite(sig < 0, -sig, 0))
+	}
+	vf.Reach("end")
+}
